@@ -25,11 +25,15 @@ BV = "snap_control::server::token_verifier::build_validation"
 VERIFY = "snap_control::server::token_verifier::SnapTokenVerifier::verify::{closure#0}"
 
 REQUIRED_CALLS = {
-    "jsonwebtoken::Validation::new": lambda tk: "adt:jsonwebtoken::Algorithm::EdDSA" in tk,
-    "jsonwebtoken::Validation::set_required_spec_claims": lambda tk: any(t.endswith("::required_claims") for t in tk),
-    "jsonwebtoken::Validation::set_audience": lambda tk: "lit:str:snap" in tk,
+    "Validation::new": lambda tk: any(t.startswith("adt:jsonwebtoken::") and t.endswith("Algorithm::EdDSA") for t in tk),
+    "Validation::set_required_spec_claims": lambda tk: any(t.endswith("::required_claims") for t in tk),
+    "Validation::set_audience": lambda tk: "lit:str:snap" in tk,
 }
-ALLOWED_CALLS = set(REQUIRED_CALLS) | {"jsonwebtoken::Validation::set_issuer"}
+ALLOWED_CALLS = set(REQUIRED_CALLS) | {"Validation::set_issuer"}
+
+
+def _vname(decl):
+    return "::".join(decl.split("::")[-2:])
 REQUIRED_STORES = {"validate_nbf": 1}
 FORBIDDEN_ANYWHERE = ("insecure_disable_signature_validation", "jsonwebtoken::dangerous", "insecure_decode", "dangerous_insecure_decode")
 
@@ -41,7 +45,7 @@ def run(F, R, tier, cfg):
     else:
         R.fn(BV)
         # the Validation local: destination of Validation::new
-        news = b.calls_to("jsonwebtoken::Validation::new")
+        news = b.calls_to(lambda n: n.startswith("jsonwebtoken::") and n.endswith("Validation::new"))
         ops_seen = {}
         for c in b.calls:
             if c.indirect or not c.decl.startswith("jsonwebtoken::"):
@@ -49,7 +53,7 @@ def run(F, R, tier, cfg):
             tk = set()
             for a in c.args[(0 if c.decl.endswith("::new") else 1):]:
                 tk |= tokens(b.origin(a))
-            ops_seen.setdefault(c.decl, []).append((tk, c.span.loc))
+            ops_seen.setdefault(_vname(c.decl), []).append((tk, c.span.loc))
         for name, pred in REQUIRED_CALLS.items():
             ok = name in ops_seen and all(pred(tk) for tk, _ in ops_seen[name])
             R.ob("CFGV-required", "%s with the required argument" % short(name), ok, True)
@@ -62,7 +66,7 @@ def run(F, R, tier, cfg):
         # field stores on the Validation local
         vlocals = {c.dest[0] for c in news}
         for l in range(len(b.locals)):
-            if b.local_ty(l) == "jsonwebtoken::Validation":
+            if b.local_ty(l).startswith("jsonwebtoken::") and b.local_ty(l).endswith("::Validation"):
                 vlocals.add(l)
         stores = {}
         for bi in sorted(b.live_blocks()):
@@ -84,7 +88,7 @@ def run(F, R, tier, cfg):
                 R.violation("CFGV-forbidden", "Validation." + fld, "validation profile overrides %s (= %s), outside the reviewed table" % (fld, fmt(val, 60)), loc)
         # returned object is the configured one
         o = b.local_origin(0)
-        R.ob("CFGV-required", "build_validation returns the configured object", any(t == "fn:jsonwebtoken::Validation::new" for t in tokens(o)), False)
+        R.ob("CFGV-required", "build_validation returns the configured object", any(t.startswith("fn:jsonwebtoken::") and t.endswith("Validation::new") for t in tokens(o)), False)
     # forbidden anywhere in the token crates
     bad = []
     for p in F.all_body_paths():
@@ -130,7 +134,7 @@ def run(F, R, tier, cfg):
         R.anchor_missing(VERIFY)
     else:
         R.fn(VERIFY)
-        decs = vb.calls_to("jsonwebtoken::decode")
+        decs = vb.calls_to(lambda n: n.startswith("jsonwebtoken::") and n.endswith("::decode"))
         R.floor("GS-decode", len(decs), 1, "jsonwebtoken::decode call in verify")
         oks = [bb for (bb, idx, adt, var) in T.result_variant_defs(vb) if var == "Ok"]
         for c in decs:
@@ -145,7 +149,7 @@ def run(F, R, tier, cfg):
                     continue
                 if any(t.endswith("JwksKeyStore::await_key") or t.endswith("await_key::{closure#0}") for t in tk):
                     aw = vb.calls_to(lambda n: n.endswith("JwksKeyStore::await_key"))
-                    if aw and all("field:kid" in tokens(vb.origin(x.args[1])) and "fn:jsonwebtoken::decode_header" in tokens(vb.origin(x.args[1])) for x in aw):
+                    if aw and all("field:kid" in tokens(vb.origin(x.args[1])) and any(t.startswith("fn:jsonwebtoken::") and t.endswith("::decode_header") for t in tokens(vb.origin(x.args[1]))) for x in aw):
                         continue
                 ok = False
             R.ob("GS-decode", "decode::<AnyClaims>(token, jwks[kid] | static_key, &self.validation)", ok, True,
@@ -157,10 +161,10 @@ def run(F, R, tier, cfg):
         for d in vb.defs.get(0, ()):
             if d[0] == "assign" and d[4][0] == "agg" and d[4][1][0] == "adt" and d[4][1][2] == "Ok":
                 tk = tokens(vb.origin(d[4][2][0]))
-                if not ("fn:jsonwebtoken::decode" in tk and "field:claims" in tk):
+                if not (any(t.startswith("fn:jsonwebtoken::") and t.endswith("::decode") for t in tk) and "field:claims" in tk):
                     okp = False
         def dp(tk, o, g):
-            return o[0] == "disc" and "fn:jsonwebtoken::decode" in tk
+            return o[0] == "disc" and any(t.startswith("fn:jsonwebtoken::") and t.endswith("::decode") for t in tk)
         okg, info = T.gs_check(vb, oks, dp)
         R.ob("GS-decode", "verify: Ok(claims) only from a successful decode", okp and okg, True)
         if not (okp and okg):
